@@ -61,6 +61,18 @@ var (
 //go:norace
 func raceSetCur(g *raceG) { raceCurG = g }
 
+// passBaton hands the baton to the next step that has not already been executed
+// ahead of its turn.
+//
+//go:norace
+func passBaton(i int) {
+	k := i + 1
+	for k < len(raceDone) && load32(&raceDone[k]) != 0 {
+		k++
+	}
+	store32(&batonTurn, int32(k))
+}
+
 //go:norace
 func racePointHook(id int) {
 	g := raceCurG
@@ -219,7 +231,7 @@ func (e *Exec) runRace() *Violation {
 				waitTurn(i)
 				if load32(&raceDone[i]) != 0 {
 					// executed ahead of its turn, inside another goroutine's operation
-					store32(&batonTurn, int32(i+1))
+					passBaton(i)
 					continue
 				}
 				me.curStep = i
@@ -250,7 +262,7 @@ func (e *Exec) runRace() *Violation {
 					store32(&raceIntRet, 0)
 					store32(&batonTurn, -r)
 				} else {
-					store32(&batonTurn, int32(i+1))
+					passBaton(i)
 				}
 			}
 		}(g)
